@@ -92,11 +92,25 @@ def _strip_comments(src):
     return src
 
 
+def property_modules(pid):
+    """the property's theorem files: Properties/<pid>.lean plus any continuation files Properties/<pid>_*.lean"""
+    d = os.path.join(LEAN_DIR, 'PyhfProofs', 'Properties')
+    files = [f for f in sorted(os.listdir(d)) if f == f'{pid}.lean' or (f.startswith(pid + '_') and f.endswith('.lean'))]
+    return [f'PyhfProofs.Properties.{f[:-5]}' for f in files]
+
+
 def property_theorems(pid):
-    """fully qualified names of every `theorem` in PyhfProofs/Properties/<pid>.lean"""
+    """fully qualified names of every `theorem` in PyhfProofs/Properties/<pid>.lean and its continuation files <pid>_*.lean"""
     path = os.path.join(LEAN_DIR, 'PyhfProofs', 'Properties', f'{pid}.lean')
     if not os.path.exists(path):
         return path, []
+    names = []
+    for mod in property_modules(pid):
+        names += _file_theorems(os.path.join(LEAN_DIR, *mod.split('.')) + '.lean')
+    return path, names
+
+
+def _file_theorems(path):
     src = _strip_comments(open(path).read())
     ns = []
     names = []
@@ -110,16 +124,17 @@ def property_theorems(pid):
         m = re.match(r'\s*(?:@\[[^\]]*\]\s*)?(?:private\s+|protected\s+)?theorem\s+(\S+)', line)
         if m:
             names.append('.'.join(ns + [m.group(1)]))
-    return path, names
+    return names
 
 
 def proof_gate(pid, thorough=False):
     """returns dict(obligations=[...], discharged=[...], failures=[...], checker_cmd=str, wall_s=float)"""
     t0 = time.time()
     failures = []
-    mod = f'PyhfProofs.Properties.{pid}'
+    mods = property_modules(pid) or [f'PyhfProofs.Properties.{pid}']
+    mod = ' '.join(mods)
     cmd = f'cd lean && lake build driver {mod} && lake env lean <audit: #print axioms of every theorem in {mod}>'
-    r = subprocess.run(['lake', 'build', 'driver', mod], cwd=LEAN_DIR, capture_output=True, text=True)
+    r = subprocess.run(['lake', 'build', 'driver'] + mods, cwd=LEAN_DIR, capture_output=True, text=True)
     path, names = property_theorems(pid)
     if r.returncode != 0:
         tail = (r.stdout + r.stderr)[-1500:]
@@ -141,7 +156,7 @@ def proof_gate(pid, thorough=False):
         try:
             af = os.path.join(tmp, 'Audit.lean')
             with open(af, 'w') as fh:
-                fh.write(f'import {mod}\n')
+                for m_ in mods: fh.write(f'import {m_}\n')
                 for n in names:
                     fh.write(f'#print axioms {n}\n')
             a = subprocess.run(['lake', 'env', 'lean', af], cwd=LEAN_DIR, capture_output=True, text=True)
@@ -162,7 +177,7 @@ def proof_gate(pid, thorough=False):
     else:
         failures.append({'kind': 'no-theorems', 'file': path})
     if thorough and not failures:
-        c = subprocess.run(['lake', 'env', 'leanchecker', mod], cwd=LEAN_DIR, capture_output=True, text=True)
+        c = subprocess.run(['lake', 'env', 'leanchecker'] + mods, cwd=LEAN_DIR, capture_output=True, text=True)
         cmd += f' && lake env leanchecker {mod}'
         if c.returncode != 0:
             failures.append({'kind': 'leanchecker', 'log_tail': (c.stdout + c.stderr)[-800:]})
